@@ -52,6 +52,10 @@ def to_real_value(v):
         from stereomolgraph.graphs.crg import Change
 
         return Change[v["$change"]]
+    if isinstance(v, dict) and "$np" in v:  # a numpy scalar, e.g. {"$np": ["float64", 6.7]}
+        import numpy as np
+
+        return getattr(np, v["$np"][0])(v["$np"][1])
     return v
 
 
@@ -254,6 +258,37 @@ def _bond_arg(b, salt):
     return _BOND_ARG_KINDS[zlib.crc32(repr(salt).encode()) % len(_BOND_ARG_KINDS)](list(b))
 
 
+MAPPING_KINDS = ("dict", "dict", "defaultdict", "OrderedDict", "MappingProxyType", "UserDict", "ChainMap")
+
+
+def mapping_arg(pairs, salt):
+    """a relabelling table given as Mapping[AtomId, AtomId]: a plain dict or another mapping type chosen from the request
+    itself (replayable). The defaultdict hands out fresh labels for missing keys when indexed (m[k]) - looking a key up
+    must not do that. Returns (mapping, kind, check) where check() is False if the caller's table was changed."""
+    import collections
+    import itertools
+    import types
+    import zlib
+
+    d = dict(pairs)
+    kind = MAPPING_KINDS[zlib.crc32(repr(salt).encode()) % len(MAPPING_KINDS)]
+    if kind == "defaultdict":
+        c = itertools.count(10**7)
+        m = collections.defaultdict(lambda: next(c), d)
+    elif kind == "OrderedDict":
+        m = collections.OrderedDict(reversed(list(d.items())))
+    elif kind == "MappingProxyType":
+        m = types.MappingProxyType(d)
+    elif kind == "UserDict":
+        m = collections.UserDict(d)
+    elif kind == "ChainMap":
+        items = list(d.items())
+        m = collections.ChainMap(dict(items[: len(items) // 2]), dict(items[len(items) // 2:]))
+    else:
+        m = d
+    return m, kind, (lambda: dict(m) == dict(pairs))
+
+
 def apply_real(g, op):
     """execute op on the real object; returns ('ok', value) or ('raised', exception type name)"""
     name, *a = fresh(op)
@@ -261,7 +296,7 @@ def apply_real(g, op):
         a[0] = _bond_arg(a[0], op)
     try:
         if name == "add_atom":
-            r = g.add_atom(a[0], a[1], **(a[2] if len(a) > 2 else {}))
+            r = g.add_atom(a[0], to_real_value(a[1]), **(a[2] if len(a) > 2 else {}))
         elif name in ("add_bond", "add_formed_bond", "add_broken_bond", "add_fleeting_bond"):
             attrs = {k: to_real_value(v) for k, v in (a[2] if len(a) > 2 else {}).items()}
             r = getattr(g, name)(a[0], a[1], **attrs)
@@ -274,7 +309,10 @@ def apply_real(g, op):
 
             r = getattr(g, name)(a[0], None if a[1] is None else Change[a[1]])
         elif name == "relabel_atoms":
-            r = g.relabel_atoms({k: v for k, v in a[0]}, copy=False)
+            m_, _, same_ = mapping_arg([(k, v) for k, v in a[0]], op)
+            r = g.relabel_atoms(m_, copy=False)
+            if not same_():
+                return "raised", "caller-mapping-modified"
         elif name == "bonds_from_bond_order_matrix":
             import numpy as np
 
